@@ -42,7 +42,7 @@ def sentence(r, lo=1, hi=4):
 
 def para(r, depth=0):
     """A text element: text with inline elements (formatting and single ones), nested <= 2."""
-    p = PNode("e", "p" if depth == 0 else r.choice(["b", "i", "s", "a"]), [("k", r.choice(["1", "2"]))] if r.random() < 0.15 else [],
+    p = PNode("e", "p" if depth == 0 else r.choice(["b", "i", "s", "a"]), [("k", r.choice(["1", "2", "x y", "x  y", "x   y"]))] if r.random() < 0.3 else [],
               sentence(r) + " " if r.random() < 0.8 else None, None)
     for _ in range(r.randint(0, 3 if depth == 0 else 1)):
         if depth < 2 and r.random() < 0.12:
@@ -78,7 +78,7 @@ def html_edit(r, t):
     for _ in range(r.randint(1, 3)):
         paras = [n for n in t.iter() if n.kind == "e" and n.tag == "p"]
         holders = [n for n in t.iter() if n.kind == "e" and n.tag in ("doc", "div", "section")]
-        op = r.choice(["word", "word", "tailword", "wrap", "unwrap", "dropinline", "addpara", "delpara", "swap", "attr", "comment"])
+        op = r.choice(["word", "word", "tailword", "wrap", "unwrap", "dropinline", "addpara", "delpara", "swap", "attr", "attr", "comment"])
         if op == "comment" and paras:
             # a comment inside a text element changes, appears or disappears
             x = r.choice([x for p in paras for x in p.iter() if x.kind == "e" and x.tag != "br"])
@@ -130,7 +130,12 @@ def html_edit(r, t):
                 h.kids[i], h.kids[i + 1] = h.kids[i + 1], h.kids[i]
         elif op == "attr" and paras:
             n = r.choice([x for p in paras for x in p.iter() if x.kind == "e"])
-            n.attrs = [("k", r.choice(["1", "2", "3"]))] if r.random() < 0.7 else []
+            cur = dict(n.attrs).get("k")
+            if cur and " " in cur and r.random() < 0.7:
+                # the same value with a white-space run of another length (equal after white-space folding)
+                n.attrs = [("k", r.choice([v for v in ("x y", "x  y", "x   y") if v != cur]))]
+            else:
+                n.attrs = [("k", r.choice(["1", "2", "3", "x y", "x  y", "x   y"]))] if r.random() < 0.7 else []
     return t
 
 
@@ -145,7 +150,18 @@ def tweak_texts(r, L, R):
         return [(n, a) for n in t.iter() for a in ("text", "tail") if getattr(n, a) and (a == "text" or n is not t) and (n.kind == "e" or a == "tail")]
 
     m = r.random()
-    if m < 0.15:
+    if m < 0.08:
+        # (e) the same word replaced by the same other word at two places of one text (the same pair of blocks reaches
+        # diff_bisect twice within one text diff)
+        k = r.randrange(1 << 30)
+        w1, w2 = r.sample(["red", "blue", "1999", "2024", "hello", "there"], 2)
+        sep = r.choice([" and ", "-", " "])
+        for t, wv in ((L, w1), (R, w2)):
+            sl = slots(t)
+            if sl:
+                n, a = sl[k % len(sl)]
+                setattr(n, a, wv + sep + wv)
+    elif m < 0.15:
         # (d) a change of white space only inside a non-blank text: collapsed away under text normalisation, a real
         # change without it
         sl = [x for x in slots(R) if " " in getattr(*x).strip()]
